@@ -30,8 +30,12 @@ def lp_snapshot(model):
         )
     # real optlang interface (concrete replays): read back through the interface, which reads GLPK
     out = dict(variables={}, constraints={}, objective=None, order={})
+    def fin(b):
+        # optlang's GLPK text-format copy (pickle / deepcopy of the solver) turns "no bound" into +-DBL_MAX:
+        # translation layer of the trusted base, read as infinite
+        return None if (b is not None and abs(b) >= 1e300) else b
     for v in s.variables:
-        out["variables"][v.name] = dict(lb=v.lb, ub=v.ub, type=v.type)
+        out["variables"][v.name] = dict(lb=fin(v.lb), ub=fin(v.ub), type=v.type)
     for c in s.constraints:
         co = {}
         k = 0.0
